@@ -98,6 +98,22 @@ def specExpected (kind : String) (specs : List Sheets.Specifier) (main : List MR
 
 def c11 (fn : String) (a : List String) : Option String := do
   match fn, a with
+  | "c07.book", [_, _, _, _, _, target, row, _] =>
+    -- C07: the error names the workbook and sheet that hold the spoilt cell, its A1 position (ID column, three
+    -- header rows) and its content
+    let r ← decNat? row
+    let (book, sheet) ← (if target == "main" then some ("Main", "Conf") else
+      match (target.drop 1).toString.splitOn "/" with
+      | [i, sh] => some ("Part" ++ i, sh)
+      | _ => none)
+    some s!"err E2012|{book}|{sheet}|A{r + 4}|abc"
+  | "o.c07.book", [_, _, _, _, _, target, row, _, obs] =>
+    let r ← decNat? row
+    let (book, sheet) ← (if target == "main" then some ("Main", "Conf") else
+      match (target.drop 1).toString.splitOn "/" with
+      | [i, sh] => some ("Part" ++ i, sh)
+      | _ => none)
+    some (if obs == s!"err E2012|{book}|{sheet}|A{r + 4}|abc" then "holds" else "FAILS")
   | "c11.spec", [kind, _, specs, main, books] =>
     let sp ← (if specs.isEmpty then some [] else (specs.splitOn ",").mapM decSpecifier?)
     some (specExpected kind sp (decRows main) (decBooks books))
